@@ -51,7 +51,24 @@ func (m Map) validate() error {
 		}
 	}
 
-	return errors.Join(errs...)
+	if err := errors.Join(errs...); err != nil {
+		return err
+	}
+	return m.validateExtendsChains()
+}
+
+// validateExtendsChains rejects cyclic extends, which cannot be expanded into attributes.
+func (m Map) validateExtendsChains() error {
+	for k, c := range m.chords {
+		seen := map[string]bool{k: true}
+		for x := c.Extends; x != ""; x = m.chords[x].Extends {
+			if seen[x] {
+				return errorx.Invalid("Chord %s Extends is cyclic", c.Name)
+			}
+			seen[x] = true
+		}
+	}
+	return nil
 }
 
 func (m Map) GetChord(nameOrDisplay string) (Chord, bool) {
